@@ -19,7 +19,7 @@ theorem guards_as_extracted :
     asyncioReaderEndStopsIdle = true ∧ trioReaderEndStopsIdle = true ∧
     h11ClosedSetsFlag = true ∧ h11ClosedClosesStream = true ∧ h11ClosedReleasesReader = true ∧ pausedBreaksWhenClosed = true ∧
     h2StreamClosedIgnoresUnknown = true ∧
-    priorIdleBeforeData = true ∧ wrapperUpdatedSites = ["handle:True"] ∧
+    priorIdleBeforeData = true ∧ wrapperUpdatedSites = ["handle:True"] ∧ h11RecycleIdleUnconditional = true ∧
     trioCloseToleratesBusy = true ∧ trioCloseToleratesBroken = true ∧ trioCloseToleratesClosed = true ∧ trioCloseAlwaysCloses = true := by decide
 
 /-- **timer_armed_implies_not_busy**: whenever the idle timer is armed no request is in progress and no WebSocket is open,
@@ -133,6 +133,22 @@ theorem late_stream_closed_changes_nothing (s : St) (w : Who) (i : Nat) (h : s.l
   simp only [St.run, FUEL, exec, ha]
   rfl
 
+/-- **the end of a response restarts the idle timer whatever the parser still holds** (HTTP/1): request and response complete,
+    nothing registered, not closed, no shutdown - the rest of `stream_send(StreamClosed)` recycles the connection, releases a
+    parked reader and arms the timer with deadline now + T.  The state has no record of bytes h11 has buffered (the beginning
+    of a pipelined request's head that arrived while this one was being answered, say), so the restart cannot depend on them;
+    in the source the `Updated(idle=True)` is an unconditional statement of the recycle branch (`h11RecycleIdleUnconditional`,
+    extracted): a complete pipelined head stops the timer again at its `Request` event, an incomplete one leaves it running
+    (`partial_head_times_out`) and the connection is closed T after the response ended -/
+theorem recycle_restarts_idle_timer (s : St) (hp : s.cfg.proto = .h1) (hc : s.pclosed = false) (ht : s.terminated = false)
+    (ho : s.our = .done) (hth : s.their = .done) (hw : s.wsMode = false) (hl : s.live = []) :
+    (afterCloseP s).1.timer = some (s.now + s.cfg.T) ∧ (afterCloseP s).1.armedAt = s.now ∧ (afterCloseP s).2 = [] ∧
+    (afterCloseP s).1.our = .idle ∧ (afterCloseP s).1.their = .idle ∧ (afterCloseP s).1.rpc ≠ .parked := by
+  have hg : h11RecycleIdleUnconditional = true := by decide
+  simp only [afterCloseP, hp, hc, ht, ho, hth, hw, hl, hg, if_true, Bool.not_false, Bool.and_self, beq_self_eq_true,
+    List.isEmpty_nil, St.armTimer, St.emit, St.release]
+  split <;> simp_all
+
 /-- **prior-knowledge HTTP/2** (cleartext; h11 reports the preface line as a request, which stops the timer): the wrapper's
     `Updated(idle=True)` is processed while no stream exists - it restarts the timer with deadline now + T - and *before* the
     bytes that followed the preface are handed over, so a request among them stops the timer again afterwards -/
@@ -174,6 +190,19 @@ example : (run (init { proto := .h2, T := 5000 }) [.read, .head {}, .h2eom 0, .n
       .tick 1000, .read, .h2rst 0, .needData, .tick 3000, .appSend 0 (.body false true), .appExit 0, .tick 2000, .timerFire]).map
     (fun s => (s.closeAt, s.timer)) = some (some 6000, none) := by decide
 
+
+/-- HTTP/1: the first bytes of a second request's head arrive at 0.5 s, while the first request is still being answered (h11
+    reports PAUSED, the reader parks); the response ends at 1 s: the connection is recycled, the released reader finds an
+    incomplete head (NEED_DATA), and the connection - idle from 1 s - is closed at 1 s + T -/
+example : (run (init { T := 5000 }) [.read, .head {}, .eom, .needData, .tick 500, .read, .paused, .tick 500, .appSend 0 (.start false),
+      .appSend 0 (.body false true), .needData, .appExit 0, .tick 5000, .timerFire]).map
+    (fun s => (s.closeAt, s.timer, (s.inst 0).access)) = some (some 6000, none, 1) := by decide
+/-- … the same with those bytes in the read that carried the first request -/
+example : (run (init { T := 5000 }) [.read, .head {}, .eom, .paused, .tick 1000, .appSend 0 (.start false),
+      .appSend 0 (.body false true), .needData, .tick 4999]).map
+    (fun s => (s.timer, s.armedAt, s.closedByServer)) = some (some 6000, 1000, false) := by decide
+example : (run (init { T := 5000 }) [.read, .head {}, .eom, .paused, .tick 1000, .appSend 0 (.start false),
+      .appSend 0 (.body false true), .needData, .tick 5001]).isNone = true := by decide
 
 /-- prior-knowledge HTTP/2, preface and first request in ONE read, a response that takes 3 T: the timer restarted by the
     switch is stopped again by the request that follows in the same read; nothing is closed while the request is served, the
